@@ -3,6 +3,7 @@ package pass
 import (
 	"github.com/mmcloughlin/avo/ir"
 	"github.com/mmcloughlin/avo/operand"
+	"github.com/mmcloughlin/avo/reg"
 )
 
 // PruneJumpToFollowingLabel removes jump instructions that target an
@@ -75,13 +76,16 @@ func PruneDanglingLabels(fn *ir.Function) error {
 // PruneSelfMoves removes move instructions from one register to itself.
 func PruneSelfMoves(fn *ir.Function) error {
 	return removeinstructions(fn, func(i *ir.Instruction) bool {
+		// Note a 32-bit self-move is not a no-op: it clears the upper 32 bits of
+		// the 64-bit register. Likewise MOVQ between vector registers clears the
+		// upper bits, so only general-purpose registers qualify.
 		switch i.Opcode {
-		case "MOVB", "MOVW", "MOVL", "MOVQ":
+		case "MOVB", "MOVW", "MOVQ":
 		default:
 			return false
 		}
 
-		return operand.IsRegister(i.Operands[0]) && operand.IsRegister(i.Operands[1]) && i.Operands[0] == i.Operands[1]
+		return operand.IsRegisterKind(i.Operands[0], reg.KindGP) && operand.IsRegisterKind(i.Operands[1], reg.KindGP) && i.Operands[0] == i.Operands[1]
 	})
 }
 
